@@ -383,6 +383,12 @@ func (g *Gen) Step() {
 		if g.P.ProbeOnly && !g.P.NoTick {
 			g.avoidBoundaries(s)
 		}
+		if g.P.ProbeOnly {
+			// twin runs: the LIMIT must never bind - which of several rows with equal
+			// attempt_at a bound query picks depends on physical row order, and that
+			// legitimately differs once a prune job has removed rows
+			max = 1000
+		}
 		w.Pull(s.Name, max)
 	case "pull-wait":
 		if s == nil {
@@ -407,6 +413,10 @@ func (g *Gen) Step() {
 		g.settle([]*Sub{s})
 		if g.P.ProbeOnly && !g.P.NoTick {
 			g.avoidBoundaries(s)
+		}
+		if g.P.ProbeOnly {
+			w.Pull(s.Name, 1000)
+			break
 		}
 		w.Pull(s.Name, len(s.outstanding())+5)
 	case "ack":
@@ -731,7 +741,11 @@ func (g *Gen) Drain() {
 			if g.P.ProbeOnly && !g.P.NoTick {
 				g.avoidBoundaries(s)
 			}
-			rms := w.Pull(s.Name, len(s.outstanding())+5)
+			dmax := len(s.outstanding()) + 5
+			if g.P.ProbeOnly {
+				dmax = 1000
+			}
+			rms := w.Pull(s.Name, dmax)
 			if len(rms) > 0 {
 				progressed = true
 				ids := make([]string, len(rms))
